@@ -68,8 +68,8 @@ def run(ctx: Ctx, rep: Report) -> None:
     # inverse trigonometry on matrix-derived values
     from ..rules.optrule import rule_degen
     from ..rules.optrule import rule_nandom
-    rule_nandom(ctx, rep, ('bqskit/ir/gates/', 'bqskit/qis/'), 5)
-    rule_degen(ctx, rep, gates, 3)
+    rule_nandom(ctx, rep, ('bqskit/ir/gates/', 'bqskit/qis/'), 4)
+    rule_degen(ctx, rep, gates, 5)
     # order-sensitive folds: tensor factors by qudit, inserts by index
     from ..rules.foldorder import rule_insertord
     from ..rules.foldorder import rule_kronfold
